@@ -548,6 +548,29 @@ func run(r *hx.Run) error {
 			}
 		}
 	}
+	// 1b. thorough: depth 1 exhaustive on both axes at once (offsets and sizes in [-3, screen+3])
+	if r.Thorough {
+		for _, sc := range []dims{{3, 2}, {6, 4}} {
+			for c := -3; c <= sc.sw+3; c++ {
+				for rw := -3; rw <= sc.sh+3; rw++ {
+					for w := -3; w <= sc.sw+3; w++ {
+						for h := -3; h <= sc.sh+3; h++ {
+							kind := byte('N')
+							if (c+rw+w+h)%5 == 0 {
+								kind = 'D'
+							}
+							tc := tcase{kind: "fill", uc: true, ew: true, sw: sc.sw, sh: sc.sh, args: []int{int(gid("x")), 1, 7},
+								chain: []step{{'R', 0, 0, sc.sw, sc.sh}, {kind, c, rw, w, h}}}
+							if err := runCase(r, &tc); err != nil {
+								return err
+							}
+							r.Count("geom:depth1-exhaustive-2axes")
+						}
+					}
+				}
+			}
+		}
+	}
 	r.Note("exhaustive", false)
 	r.Note("geometry", "depth<=2 exhaustive per axis (offset,size in [-3,parent+3]); random depth<=4")
 
